@@ -2520,15 +2520,22 @@ func (t *Table) NewCellIterator() *CellIterator {
 	}
 }
 
+// rowLen 返回第 row 行的物理单元格数（合并单元格使各行的单元格数不同）
+func (iter *CellIterator) rowLen(row int) int {
+	if row < 0 || row >= len(iter.table.Rows) {
+		return 0
+	}
+	return len(iter.table.Rows[row].Cells)
+}
+
 // HasNext 检查是否还有下一个单元格
 func (iter *CellIterator) HasNext() bool {
-	if iter.totalRows == 0 || iter.totalCols == 0 {
-		return false
+	// 跳过已经遍历完的行，使当前位置指向下一个实际存在的单元格
+	for iter.currentRow < iter.totalRows && iter.currentCol >= iter.rowLen(iter.currentRow) {
+		iter.currentRow++
+		iter.currentCol = 0
 	}
-
-	// 检查当前位置是否超出范围
-	return iter.currentRow < iter.totalRows &&
-		(iter.currentRow < iter.totalRows-1 || iter.currentCol < iter.totalCols)
+	return iter.currentRow < iter.totalRows
 }
 
 // Next 获取下一个单元格信息
@@ -2554,12 +2561,8 @@ func (iter *CellIterator) Next() (*CellInfo, error) {
 		Text: text,
 	}
 
-	// 更新位置并检查是否为最后一个
+	// 更新位置并检查是否为最后一个（HasNext 负责换行）
 	iter.currentCol++
-	if iter.currentCol >= iter.totalCols {
-		iter.currentCol = 0
-		iter.currentRow++
-	}
 
 	// 检查是否为最后一个单元格
 	cellInfo.IsLast = !iter.HasNext()
@@ -2578,19 +2581,26 @@ func (iter *CellIterator) Current() (int, int) {
 	return iter.currentRow, iter.currentCol
 }
 
-// Total 获取总单元格数量
+// Total 获取总单元格数量（各行物理单元格数之和）
 func (iter *CellIterator) Total() int {
-	return iter.totalRows * iter.totalCols
+	total := 0
+	for row := 0; row < iter.totalRows; row++ {
+		total += iter.rowLen(row)
+	}
+	return total
 }
 
 // Progress 获取迭代进度（0.0-1.0）
 func (iter *CellIterator) Progress() float64 {
-	if iter.totalRows == 0 || iter.totalCols == 0 {
+	total := iter.Total()
+	if total == 0 {
 		return 1.0
 	}
 
-	processed := iter.currentRow*iter.totalCols + iter.currentCol
-	total := iter.totalRows * iter.totalCols
+	processed := iter.currentCol
+	for row := 0; row < iter.currentRow && row < iter.totalRows; row++ {
+		processed += iter.rowLen(row)
+	}
 
 	return float64(processed) / float64(total)
 }
@@ -2619,7 +2629,7 @@ func (t *Table) ForEachInRow(rowIndex int, fn func(col int, cell *TableCell, tex
 		return fmt.Errorf("行索引无效: %d", rowIndex)
 	}
 
-	colCount := t.GetColumnCount()
+	colCount := len(t.Rows[rowIndex].Cells)
 	for col := 0; col < colCount; col++ {
 		cell, err := t.GetCell(rowIndex, col)
 		if err != nil {
